@@ -290,6 +290,15 @@ func (s *Sched) selectOp(kind string, hasDef bool, cases []Case) int {
 		op.chosen = ready[pick]
 		if self != nil {
 			self.selLast = op.chosen
+			if s.cfg.Fair {
+				// only a case that changes nothing (receive from a closed or foreign channel) is a busy-wait iteration;
+				// a send or the receipt of a value is progress
+				c := cases[op.chosen]
+				vc := s.lookup(c.key())
+				if c.isSend() || c.mustTake() || (vc != nil && len(vc.buf) > 0) || (vc != nil && !vc.closed) {
+					self.selSig, self.spin = "", 0
+				}
+			}
 		}
 		s.doCase(self, cases[op.chosen])
 	}
